@@ -10,6 +10,6 @@ CHECKS["C03"] = dict(
           "signed the certified block before that step, by ground truth; stated view = certified block's view), whose parent is "
           "the certified block and whose view is higher; block signatures have strictly increasing views; none at or below a "
           "view for which the replica signed a timeout before. Non-trivial = some honest replica both signed a block and "
-          "received a proposal that had to be refused; distinct = config+schedule. Strategy runs (TestC03StrategyVotes): the same vote oracle over ALL strategies of two strategic views of a Byzantine replica that leads every view (see C01: which certificate the block extends, who sees it, equivocation, before or after the receivers' timers fired; 16,200 runs)."),
+          "received a proposal that had to be refused; distinct = config+schedule. Strategy runs (TestC03StrategyVotes): the same vote oracle over ALL strategies of two strategic views of a Byzantine replica that leads every view (see C01: which certificate the block extends, who sees it, equivocation, before or after the receivers' timers fired; 16,200 runs). Origin of a proposal (TestC03ProposalOrigin): at the network entry point server.Propose, a well-formed block for the replica's current view whose Proposer field names any replica, arriving over the connection of any peer (member, non-member, id 0, no id), n in {4,7}, with and without a Kauri tree: the replica signs only if the peer is the leader of the view or - with a tree - its parent; the leader's proposal on the usual path is voted for; a block made up by a non-leader parent and voted for is the open finding 43."),
     assumptions=["the simulator edges, the signing tap and the fast keyed-hash base are trusted", "schedules are sampled"],
 )
